@@ -29,6 +29,55 @@ def main():
         cases.append({"op": "eq", "l": a, "r": a})
         cases.append({"op": "hash_eq", "l": a, "r": b})
         groups.append((start, a, b))
+    # ---- coherence on offset scales (zero and equal readings included) and after an equivalence has been declared twice
+    def table(payload, pairs, tag, value_of=None):
+        ops = ("eq", "ne", "lt", "le", "gt", "ge")
+        cs = []
+        for a, b in pairs:
+            for op in ops:
+                cs.append({"op": op, "a": a, "b": b}); cs.append({"op": op, "a": b, "b": a})
+        res = impl("convsys_worker.py", dict(payload, cases=cs))["results"]
+        for i, (a, b) in enumerate(pairs):
+            R = {}
+            for k, op in enumerate(ops):
+                R[op] = res[12 * i + 2 * k]; R[op + "'"] = res[12 * i + 2 * k + 1]
+            c.count([tag, a, b], nontrivial=True)
+            repl = {"scenario": tag, "a": a, "b": b, "truth_table": R, "setup": {k: v for k, v in payload.items() if k in ("define", "decls")}}
+            if any("err" in x for x in R.values()):
+                c.violation(f"raises:compare:{tag}", f"comparison raised: {R}", repl); continue
+            g = lambda k: R[k]["bool"]
+            if value_of:
+                va, vb = value_of(a), value_of(b)
+                if va != vb and abs(va - vb) < Fraction(1, 10**6) * max(abs(va), abs(vb), 1): continue
+                if va == vb and a["u"] != b["u"]: continue        # exact ties reached through floats
+                if g("lt") != (va < vb) or g("eq") != (va == vb):
+                    c.violation(f"physical-order:{tag}", f"order disagrees with the physical values {float(va)} vs {float(vb)}", repl)
+            if g("eq") != g("eq'"): c.violation(f"eq-symmetric:{tag}", "a == b differs from b == a", repl)
+            if g("ne") == g("eq"): c.violation(f"ne-not-eq:{tag}", "a != b is not the negation of a == b", repl)
+            if [g("lt"), g("eq"), g("gt")].count(True) != 1: c.violation(f"trichotomy:{tag}", f"not exactly one of <, ==, > holds: {g('lt')},{g('eq')},{g('gt')}", repl)
+            if g("le") != g("ge'") or g("ge") != g("le'") or g("lt") != g("gt'") or g("gt") != g("lt'"):
+                c.violation(f"mirror:{tag}", "<= / >= / < / > do not mirror each other under argument swap", repl)
+    KELVIN = {"kelvin": (Fraction(1), Fraction(0)), "celsius": (Fraction(1), Fraction("273.15")), "Rankine": (Fraction(5, 9), Fraction(0)), "fahrenheit": (Fraction(5, 9), Fraction("459.67") * Fraction(5, 9))}
+    def kval(q):
+        a_, b_ = KELVIN[q["u"][0][1]]
+        return a_ * Fraction(int(q["m"][1]), int(q["m"][2])) + b_
+    tp = []
+    for s1 in KELVIN:
+        for s2 in KELVIN:
+            for x, y in ((0, 0), (0, 5), (100, 100), (-40, -40), (300, 27), (32, 0), (0, 32)):
+                tp.append(({"m": ["int", str(x), "1"], "u": [[None, s1, 1]]}, {"m": [rng.choice(["int", "float"]), str(y), "1"], "u": [[None, s2, 1]]}))
+    table({"systems": True}, tp, "temperature", kval)
+    # the same pair declared twice (from both sides), the later declaration wins in both directions
+    define = [["zzq0", [[1, 1]]], ["zzq1", [[1, 1]]], ["zzq2", [[1, 1]]]]
+    decls = [[[[None, "zzq0", 1]], ["float", "3", "4"], [[None, "zzq1", 1]]], [[[None, "zzq0", 1]], ["float", "1", "2"], [[None, "zzq1", 1]]],
+             [[[None, "zzq2", 1]], ["int", "4", "1"], [[None, "zzq1", 1]]], [[[None, "zzq1", 1]], ["float", "1", "8"], [[None, "zzq2", 1]]]]
+    size = {"zzq1": Fraction(1), "zzq0": Fraction(1, 2), "zzq2": Fraction(8)}
+    rp = []
+    for ua in size:
+        for ub in size:
+            for x, y in ((2, 2), (3, 1), (1, 16), (31, 16), (0, 0), (5, 40)):
+                rp.append(({"m": ["int", str(x), "1"], "u": [[None, ua, 1]]}, {"m": ["float", str(y), "1"], "u": [[None, ub, 1]]}))
+    table({"systems": False, "define": define, "decls": decls}, rp, "redeclared", lambda q: Fraction(int(q["m"][1]), int(q["m"][2])) * size[q["u"][0][1]])
     recs = qdriver.run(cases)
     for start, a, b in groups:
         R = {}
